@@ -333,6 +333,12 @@ RECIPES["C09"] = {
     "units": ["modules/iauth_core.c", "modules/iauth_misc.c"],
     "jobs": [
         step_job("announce", "CHECK_C09", events=["EV_C"]),
+        # the address text printed at announcement (irc_ntop) denotes the announced address: the
+        # C12 harness, reference-parser part (every IPv6 address; quick: groups <= 0xf, see C12)
+        {"name": "addr_text", "src": ["C12_ntop.c"] + MISC,
+         "splits": {"all": [{"PART_REF": None}]},
+         "defs": {"quick": {"VP_GROUPMAX": "0xf"}, "thorough": {}},
+         "unwind": 44, "unwindset": _NTOP6_UW, "timeout": {"quick": 900, "thorough": 3400}},
         {"name": "fmt", "src": ["C09_fmt.c"] + IAUTH, "gen": _gen_formats.gen,
          "defs": {"quick": {"LSTR": 2, "LADDR": 3}, "thorough": {"LSTR": 5, "LADDR": 15}},
          "splits": {"all": _fmt_job_splits()},
@@ -525,6 +531,7 @@ def _parse_splits(thorough):
           ("obj_last_brace", "o { a w; b w };", "EXPECT_OBJ_AB"), ("obj_repeat", "o{a w;};o{b w;};", "EXPECT_OBJ_AB"),
           ("dup_later_wins", "a w;a w;", "EXPECT_STRING_A_LAST"), ("inaddr", "h w w;", "EXPECT_INADDR"),
           ("cxx_comment", "a w // q\\\\nb w;", "EXPECT_TWO"), ("c_comment", "a w /* q */; b w\\\\n", "EXPECT_TWO"),
+          ("c_comment_tight", "a w/*q*/;b w;", "EXPECT_TWO"), ("c_comment_stars", "a w/*qq*/;b w;", "EXPECT_TWO"),
           ("newline_term", "a w\\\\nb w\\\\n", "EXPECT_TWO")]
     bad = [("trunc_list", "l (w,"), ("trunc_obj", "o { a w;"), ("trunc_quote", 'a \\"q'), ("trunc_comment", "a w /* q"),
            ("three_words", "a w w w;"), ("any3", "qqq"), ("any4", "qqqq"), ("name_any", "a q"), ("obj_any", "o { q }")]
@@ -603,6 +610,12 @@ RECIPES["C16"]["jobs"].append(
     {"name": "tok", "src": ["C14_tok.c"] + CONFIG_TU, "gen": _gen_shim.gen,
      "splits": {"quick": [{"VP_LEN": n} for n in (2, 3, 4)], "thorough": [{"VP_LEN": n} for n in range(1, 8)]},
      "unwind": "VP_LEN + 3", "unwindset": ["ctype_init.0:31", "ctype_init.1:17", "harness.0:12", "harness.1:12", "harness.2:12"],
+     "fp_restrict": FP_CONFIG, "timeout": 900})
+# white space and both comment styles on every byte string
+RECIPES["C16"]["jobs"].append(
+    {"name": "space", "src": ["C16_space.c"] + CONFIG_TU, "gen": _gen_shim.gen,
+     "splits": {"quick": [{"VP_LEN": 5}, {"VP_LEN": 6}], "thorough": [{"VP_LEN": n} for n in (3, 5, 6, 7, 8)]},
+     "unwind": "VP_LEN + 3", "unwindset": ["ctype_init.0:31", "ctype_init.1:17"],
      "fp_restrict": FP_CONFIG, "timeout": 900})
 
 FP_LOG = dict(FP_CONFIG)
@@ -684,8 +697,8 @@ META = {
     "C07": (_STEP_TEXT + ". Obligations (frame): an event about one client leaves every other request record and xquery record byte-identical and emits no line naming them; `two`: two events in sequence (A then B) - nothing left in module statics by the first leaks into the second's lines.", _STEP_NOTE),
     "C08": ("one input line through the real iauth_read (id parse, 16-slot tokenizer, lookup, dispatch, handler) from every inv() state: the line LAYOUT and command letter are enumerated by the driver (bare command, arguments, trailing argument, 17 arguments, unknown id, no id, two lines in one read), payload bytes symbolic; obligations: CBMC's memory-safety checks on the whole path, lines consumed, unknown id/command is a no-op, EOF requests a clean exit and changes nothing",
             "trusted: evbuffer model hands out complete lines (chunk reassembly is libevent's); irc_pton/irc_ntop replaced by their contract (decided in C12/C13); invariant and recorder as in the step harness. Outside: arbitrary byte streams beyond the layouts, hangs inside libevent"),
-    "C09": ("formatting layer: for every format literal passed to iauth_send in the three modules (list extracted from /repo on every run) the real iauth_send renders exactly <word> [<id> <addr> <port>]<rest> in one fputs + one newline + one flush, byte for byte, with symbolic %s contents, symbolic address text and id/port chosen among boundary values; an over-long (1100-byte) argument is truncated to 1023 bytes memory-safely. stdout isolation of the logger at verbosity 0 is decided in C18 fanout.",
-            "trusted: byte-exact printf model (env/libc_models.c; native replay uses glibc); numbers restricted to boundary values (decimal rendering is libc's). Outside: that every record the decision layer produces is rendered through these literals (by construction of the recorder); announce echo by composition C12+C13"),
+    "C09": ("formatting layer: for every format literal passed to iauth_send in the three modules (list extracted from /repo on every run) the real iauth_send renders exactly <word> [<id> <addr> <port>]<rest> in one fputs + one newline + one flush, byte for byte, with symbolic %s contents, symbolic address text and id/port chosen among boundary values; an over-long (1100-byte) argument is truncated to 1023 bytes memory-safely. stdout isolation of the logger at verbosity 0 is decided in C18 fanout. `announce`: an announcement (real parse_client) stores the announced id, port and address text. `addr_text`: the text irc_ntop prints for EVERY IPv6 address is read back by a standard parser as that address (quick: groups <= 0xf; thorough full width).",
+            "trusted: byte-exact printf model (env/libc_models.c; native replay uses glibc); numbers restricted to boundary values (decimal rendering is libc's). Outside: that every record the decision layer produces is rendered through these literals (by construction of the recorder); the announced address text itself is parsed by irc_pton (C13)"),
     "C10": (_STEP_TEXT + ". Obligations: table size = live instances after every event, alloc/free counters balance, a finished request's timer is freed in the same step and a live one's is kept; `teardown`: EOF then the module destructors free every request, record, timer, the input event and buffer exactly once (CBMC --memory-leak-check).", _STEP_NOTE),
     "C11": ("the real iauth_class_assign on a compiled vector of 1..3 rules with symbolic presence of every criterion, symbolic masks/prefix lengths, class present or not, trust_username; symbolic client (address, account with or without :stamp, ident, pre-assigned class, xquery masks). fnmatch is UNINTERPRETED (arbitrary consistent verdicts), so the result holds for every glob semantics. Obligations: deciding rule has all present criteria satisfied, every earlier rule definitely fails one, later rules are not evaluated, account glob sees the account without its stamp, class = value else name, U line exactly for trust_username with a ~ident",
             "trusted: uninterpreted fnmatch model; compile order of rules follows from C19 (ordered set) and strcasecmp; typed allocation model. Outside: glibc fnmatch semantics, more than 3 rules"),
